@@ -26,7 +26,8 @@ from pexpect.exceptions import EOF, TIMEOUT
 PROPERTY = 'C08'
 RULE = ('Hypothesis-generated histories (1-8 operations) over send/sendline/write/writelines/sendcontrol(name)/'
         'sendeof/sendintr with payloads over all 256 byte values, non-ASCII text, empty strings and sizes up to '
-        '70 KB (thorough 256 KB), interleaved with reads, in bytes mode (bytes and str arguments) and unicode mode '
+        '70 KB (thorough 256 KB), interleaved with reads (a third of them ending inside a multi-byte character whose '
+        'rest arrives with the next read), in bytes mode (bytes and str arguments) and unicode mode '
         '(utf-8, latin-1; utf-16 where the transport allows), on pty (raw-mode recording child), fdspawn, '
         'SocketSpawn and PopenSpawn.  Non-trivial: >= 3 send-family calls including a non-ASCII/non-UTF-8 payload, '
         'a payload larger than 64 KB, or a control call between sends.  Distinct by hash of the case.')
@@ -86,7 +87,10 @@ def histories(draw, big=False, want_logs=False, transports=('pty', 'pty', 'fd', 
             op = [draw(st.sampled_from(['sendeof', 'sendintr']))]
         elif k >= 9:
             text = ''.join(draw(st.lists(st.sampled_from(['o', 'k', ' ', '\r\n', 'é' if text_mode else 'e']), min_size=0, max_size=8)))
-            op = ['read', text, draw(st.sampled_from(['expect', 'rnb']))]
+            # the last flag: the peer's write for this read ends inside the first character of the next read's
+            # text (unicode mode, multi-byte codecs), so the following operations happen with half a character
+            # held back in the object's read decoder
+            op = ['read', text, draw(st.sampled_from(['expect', 'rnb'])), draw(st.integers(0, 2)) == 0]
         else:
             op = ['send', draw(P)]
         # keep big payloads rare: they dominate the run time
@@ -172,8 +176,15 @@ def run_history(case, logs=None):
     # scripted read chunks: text + unique terminator
     chunks = []
     reads = [op for op in case['ops'] if op[0] == 'read']
+    can_split = text_mode and len('\xe9'.encode(enc)) >= 2
+    prefix = {}                   # read number -> text that its chunk starts with (the split character)
     for k, op in enumerate(reads):
-        b, text = mo.read_chunk(op[1] + '#%d;' % k)
+        if k > 0 and can_split and len(reads[k - 1]) > 3 and reads[k - 1][3]:
+            prefix[k] = '\xe9'
+        b, text = mo.read_chunk(prefix.get(k, '') + op[1] + '#%d;' % k)
+        if k in prefix:
+            chunks[-1] += b[:1]
+            b = b[1:]
         chunks.append(b)
     # the model accumulated log entries for reads up front; rebuild in operation order below
     mo.log_read, mo.log_all = [], []
@@ -228,7 +239,7 @@ def run_history(case, logs=None):
                     mo.control(b'\x03')
                     child.sendintr()
                 elif kind == 'read':
-                    b, text = mo.read_chunk(op[1] + '#%d;' % k)
+                    b, text = mo.read_chunk(prefix.get(k, '') + op[1] + '#%d;' % k)
                     term = ('#%d;' % k) if text_mode else ('#%d;' % k).encode('ascii')
                     k += 1
                     sess.trigger_read()
